@@ -34,10 +34,11 @@ PLAIN_CXX:= g++ -std=gnu++17 -O1 -g
 COMMON_H := $(wildcard src/common/*.hpp) $(wildcard src/common/*.inc)
 
 HARNESSES := $(patsubst src/%.cpp,%,$(wildcard src/c[0-9][0-9]*.cpp))
-FUZZERS   := $(patsubst src/fuzz/%.cpp,%,$(wildcard src/fuzz/fz_*.cpp))
+FUZZ_IDS  := c01 c04 c06 c07 c08 c10 c16 c17
+FUZZERS   := $(addprefix fz_,$(FUZZ_IDS))
 
 .PHONY: all clean libs harnesses fuzzers
-all: libs harnesses fuzzers $(B)/bin/hashunion
+all: libs harnesses $(B)/bin/c20_tsan fuzzers $(B)/bin/hashunion $(B)/fuzzseeds/.stamp
 libs: $(B)/asan/liburi.a $(B)/fuzz/liburi.a $(B)/tsan/liburi.a $(B)/plain/liburi_plain.so
 harnesses: $(addprefix $(B)/bin/,$(HARNESSES))
 fuzzers: $(addprefix $(B)/bin/,$(FUZZERS))
@@ -107,6 +108,11 @@ $(B)/bin/fz_%: $(B)/fuzz/%.o $(B)/fuzz/fuzzengine.o $(B)/fuzz/liburi.a
 $(B)/bin/hashunion: src/common/hashunion.cpp
 	@mkdir -p $(B)/bin
 	g++ -std=gnu++17 -O2 $< -o $@
+
+# seed corpus for the byte-level fuzz arms: string literals scraped from the repository's tests
+$(B)/fuzzseeds/.stamp: tools/scrape_seeds.py $(wildcard $(REPO)/test/*.cpp)
+	python3 tools/scrape_seeds.py $(REPO)/test $(B)/fuzzseeds
+	@touch $@
 
 clean:
 	rm -rf $(B)
